@@ -19,7 +19,7 @@ import (
 
 var InterpretedPkgs = []string{
 	"golang.org/x/exp/rand", "unicode", "unicode/utf8", "errors", "strings", "bytes",
-	"strconv", "sort", "math/bits", "encoding/binary", "slices", "cmp",
+	"strconv", "sort", "math/bits", "encoding/binary", "slices", "cmp", "io", "bufio",
 }
 
 // LoadProgram loads repoDir (package ".") with the overlay and builds SSA.
